@@ -110,6 +110,9 @@ LEXMAPS = {
     "M2": {"a": ("s", "a"), "b": ("r", "a|b")},
     "M3": {"a": ("s", "a"), "b": ("r", "a+")},
     "M4": {"a": ("r", "ab?"), "b": ("s", "b")},
+    # a regex that runs across layout characters: heads of two tokenisations
+    # meet with different layout in front of the same token
+    "M5": {"a": ("r", "ab?"), "b": ("r", "[ab][ab ]*")},
     # three-terminal plain map
     "M0c": {"a": ("s", "a"), "b": ("s", "b"), "c": ("s", "c")},
 }
